@@ -36,10 +36,14 @@ that is both executed here and copied verbatim into the reproduction script of a
 script is the executed history, not a paraphrase of it.  Histories found at random are reduced
 (greedy removal of UI actions, replayed through the same front-end model) before they are reported.
 
-C17 additionally has an "API level" phase: public methods of MenuConfigState called with arguments
-the front end never passes (a node that is not the highlighted row, force_change_node without the
-preceding NEEDS_WARNING, ...).  Violations of that phase carry the prefix ``api:`` and say so in the
-detail; violations with the prefix ``ui:`` were produced by a sequence of keys of the real UI.
+C17 quantifies over "all finite sequences of the actions the Textual front end can issue", so every
+session consists of keys of the real UI only (class prefix ``ui:``).  There is deliberately NO phase
+that calls public methods of MenuConfigState with arguments the front end never passes (a node that
+is not the highlighted row, force_change_node without the preceding NEEDS_WARNING, leave_menu at the
+top, ...): such histories are outside the property's quantifier, and a crash that needs one of them
+says nothing about C17.  For the same reason C16 (which does not speak about exceptions at all) only
+charges an exception that is raised by one of its own flows (load / save / needs_save); a crash of a
+navigation or edit method ends a C16 session silently and is C17's business.
 
 Oracles (all from the property statements, none re-implements the library): bytes of the file on
 disk vs. bytes ``Kconfig.write_config`` writes now; a FRESH session on the same file; the complete
@@ -863,12 +867,24 @@ def _prepare_files(text, rename, pv, hdr, rng):
             return True
 
         def type_value(kk):
-            cands = [s for s in kk.unique_defined_syms if s.orig_type in (K.INT, K.HEX, K.FLOAT, K.STRING) and s.visibility]
+            # Only an edit the front end can make: a row whose prompt is visible and which is changeable, and a text
+            # the input validator accepts (a "file written by the tool" is a file a menuconfig session saved; a value
+            # forced in with Symbol.set_value() behind the validator's back, e.g. outside the active range, is not
+            # something a session can have written).
+            typed = {K.INT: "6", K.HEX: "0x11", K.FLOAT: "1.25", K.STRING: "other text"}
+
+            def accepted(s):
+                try:
+                    return FMT.check_valid(s, typed[s.orig_type])[0]
+                except ValueError:  # the validator itself raises (charged by C17): no session gets past this input
+                    return False
+
+            cands = [s for s in kk.unique_defined_syms if s.orig_type in typed
+                     and any(st.changeable(n) for n in s.nodes) and accepted(s)]
             if not cands:
                 return False
             s = cands[rng.randrange(len(cands))]
-            val = {K.INT: "6", K.HEX: "0x11", K.FLOAT: "1.25", K.STRING: "other text"}[s.orig_type]
-            return bool(s.set_value(val))
+            return bool(s.set_value(typed[s.orig_type]))
 
         def everything(kk):
             a = pick_choice(kk)
@@ -938,7 +954,7 @@ class _UI:
         self.case = case
         self.prop = prop
         self.d = d
-        self.phase = phase  # "ui" | "api"
+        self.phase = phase  # always "ui": only keys of the front end (see module docstring)
         self.ns = dict(_HELPER_NS)
         self.ns.update(d=d, TEXT=case.text, RENAME=case.rename, PV=case.pv, MAIN=case.main, HDR=case.hdr,
                        FILES=case.files)
@@ -1203,8 +1219,6 @@ class _UI:
             self.key_save()
         elif kind == "quit":
             self.key_quit()
-        elif kind == "api":
-            self.x(action[1])
         else:
             raise AssertionError(kind)
 
@@ -1279,57 +1293,6 @@ def _random_action(ui, rng, weights):
     return (kind,)
 
 
-def _random_api_action(ui, rng):
-    st = ui.st
-    nodes = ui.N
-    node = nodes[rng.randrange(len(nodes))]
-    n = ui.n(node)
-    c = rng.randrange(12)
-    sc = node.item
-    if c <= 2 and isinstance(sc, (K.Symbol, K.Choice)):
-        # value entry / toggle on an option that is NOT necessarily the highlighted row;
-        # still only values the option currently accepts, through the validator
-        if not st.changeable(node):
-            return ("api", "r = st.change_node(%s)  # api: %s (not changeable)" % (n, ui.label(node)))
-        if sc.orig_type in (K.INT, K.HEX, K.FLOAT, K.STRING) and isinstance(sc, K.Symbol):
-            cands = _typed_candidates(sc)
-            text = cands[rng.randrange(len(cands))]
-            ok, _e = st.check_valid(sc, text)
-            if not ok:
-                return ("api", "ok, err = st.check_valid(%s.item, %r)" % (n, text))
-            val = text
-            if sc.orig_type == K.HEX:
-                val = val.strip()
-                if not val.startswith(("0x", "0X")):
-                    val = "0x" + val
-            elif sc.orig_type != K.STRING:
-                val = val.strip()
-            return ("api", "st.set_val(%s.item, %r)  # api: %s need not be the highlighted row" % (n, val, ui.label(node)))
-        asg = list(sc.assignable)
-        if not asg:
-            return ("api", "r = st.change_node(%s)" % n)
-        return ("api", "st.set_val(%s.item, %r)  # api: %s need not be the highlighted row" % (n, asg[rng.randrange(len(asg))], ui.label(node)))
-    if c == 3:
-        return ("api", "st.restore_default(%s)  # api: any node (%s)" % (n, ui.label(node)))
-    if c == 4:
-        return ("api", "st.restore_defaults_recursive(%s)  # api: any node (%s)" % (n, ui.label(node)))
-    if c == 5:
-        return ("api", "r = st.change_node(%s)  # api: any node (%s)" % (n, ui.label(node)))
-    if c == 6:
-        return ("api", "r = st.force_change_node(%s)  # api: without a preceding NEEDS_WARNING (%s)" % (n, ui.label(node)))
-    if c == 7:
-        return ("api", "r = st.enter_menu(%s)  # api: any node (%s)" % (n, ui.label(node)))
-    if c == 8:
-        return ("api", "st.jump_to(%s)  # api: any node (%s)" % (n, ui.label(node)))
-    if c == 9:
-        return ("api", "r = st.leave_menu()")
-    if c == 10:
-        return ("api", "st.toggle_show_all()")
-    if st.shown:
-        return ("api", "st.sel_node_i = %d  # cursor" % rng.randrange(len(st.shown)))
-    return ("api", "st.set_sel_node_bool_val(%d)" % rng.choice([0, 2]))
-
-
 # --------------------------------------------------------------------------------------------------
 # Contracts
 # --------------------------------------------------------------------------------------------------
@@ -1378,8 +1341,6 @@ CONTRACTS = {
         "(numerically for int/hex/float, textually for string); rejected or cancelled input changes nothing",
         "restore_default(row) / restore_defaults_recursive(menu row): afterwards the option(s) have no user value and no "
         "option outside the row's option/choice/menu lost or gained one",
-        "API level (prefix api:, NOT producible by the front end): the same exception/invariant contracts for public "
-        "methods called with any node / any changeable option instead of the highlighted row",
     ],
 }
 
@@ -1516,7 +1477,11 @@ def _check_c16(ui, action, pre):
                 ui.memo[mk] = _classify_clean_differs(ui, D, W)
             difftype, lost = ui.memo[mk]
             origin = ui.file_origin
-            cls = "clean-but-differs:%s:%s-file:%s" % (difftype, origin, after if difftype in ("values", "spelling") else "any")
+            # class = kind of difference + kind of file on disk (for a hand-edited file: which hand edit); the key after
+            # which it was seen only matters when an edit is lost ("values"), otherwise it is the same finding after any key
+            cls = "clean-but-differs:%s:%s" % (difftype, ui.case.main_kind if origin == "hand" else origin + "-file")
+            if difftype == "values":
+                cls += ":" + after
             detail = ("needs_save() is False (q exits with 'No changes to save') but the file on disk (%s, %s) is not what "
                       "saving would write: %s.  A fresh session on the file on disk %s" % (
                           "absent" if D is None else "%d bytes" % len(D), origin + "-written", _diff_lines(D, W),
@@ -1574,7 +1539,7 @@ def _check_c17(ui, action, pre):
         return _Violation("%shighlighted-row-missing:%s:after-%s" % (px, first, kind) if first in ("empty-list", "index", "selected-node-raises")
                           else "%s%s:after-%s" % (px, first, kind),
                           CONTRACTS["C17"][1], "after %s: %s" % (_describe(action), "; ".join(bad)), "inv(st)")
-    if action is None or ui.phase == "api":
+    if action is None:
         return None
     post, upost = _snap(k), _ustate(k)
     last = ui.last
@@ -1687,8 +1652,6 @@ def _describe(action):
     if action is None:
         return "session start"
     kind = action[0]
-    if kind == "api":
-        return "api call `%s`" % action[1].split("  #")[0]
     if kind in ("enter", "space"):
         return "key %s%s" % (kind, "" if action[1] is None else " (typing %r)" % (action[1],))
     if kind == "move":
@@ -1758,6 +1721,8 @@ def _run_session(case, prop, phase, policy, max_steps, stop=None):
                 v = check(ui, action, pre)
             except _LibraryError as e:
                 v = _exception_violation(ui, action, e, prop, phase)
+                if v is None:
+                    return ui, actions, None  # the real application died here; not charged to this property
             if v is not None:
                 if v.fatal or stop is None or stop(v):
                     ui.violation = v
@@ -1778,17 +1743,25 @@ class _Dummy:
         self.passed = set()
 
 
+# outermost project function of a traceback that belongs to a flow C16 speaks about
+_C16_FLOWS = ("load_config", "try_load", "write_config", "reload_sdkconfig_file", "needs_save")
+
+
 def _exception_violation(ui, action, e, prop, phase):
     if prop == "C16":
-        # C16 does not quantify over crashes, but a crash inside its own flows cannot be ignored either
+        # C16 does not quantify over crashes, but a crash inside its own flows cannot be ignored either.
+        # A crash of a navigation / edit method (leave_menu, change_node, check_valid, ...) is not a statement
+        # about "nothing needs saving": the session ends there without a C16 violation (C17 charges it).
+        if e.where.split(">")[0] not in _C16_FLOWS:
+            return None
         cls = "exception:%s:%s" % (e.where, type(e.exc).__name__)
-        contract = "no exception in the flows of C16 (load, edit, save, needs_save)"
+        contract = "no exception in the flows of C16 (load_config, try_load, write_config, reload_sdkconfig_file, needs_save)"
     else:
         cls = "%s:exception:%s:%s" % (phase, e.where, type(e.exc).__name__)
         if any(f in e.where for f in ("leave_menu", "_update_menu", "jump_to", "toggle_show_all", "enter_menu", "_select_selected")) \
                 and phase == "ui":
             cls += ":" + _menu_kind(ui)
-        contract = CONTRACTS["C17"][0] if phase == "ui" else CONTRACTS["C17"][8]
+        contract = CONTRACTS["C17"][0]
     detail = "%s raised %s: %s (in `%s`)" % (_describe(action), type(e.exc).__name__, str(e.exc).strip()[:160], e.code.split("  #")[0])
     return _Violation(cls, contract, detail, "EXC:" + type(e.exc).__name__)
 
@@ -1970,7 +1943,7 @@ def _work(arg):
                 else:
                     mk, main = "tool-edited", fk["alt-all"]
                 kinds = _FILE_KINDS_17 if s % 4 == 1 else tuple(x for x in _FILE_KINDS_17 if x != "not-utf8")
-                phase = "api" if s % 4 == 3 else "ui"
+                phase = "ui"
             files, file_kinds = [], []
             for i, kd in enumerate(kinds):
                 data = fk.get(kd)
@@ -1982,14 +1955,8 @@ def _work(arg):
             case.memo = tree_memo
             weights = W16 if prop == "C16" else W17
 
-            if phase == "api":
-                def policy(ui, _step, rng=rng):
-                    if rng.random() < 0.25:
-                        return _random_action(ui, rng, W17)
-                    return _random_api_action(ui, rng)
-            else:
-                def policy(ui, _step, rng=rng, weights=weights):
-                    return _random_action(ui, rng, weights)
+            def policy(ui, _step, rng=rng, weights=weights):
+                return _random_action(ui, rng, weights)
 
             ui, actions, v = _run_session(case, prop, phase, policy, cfgt["steps"],
                                           stop=lambda w: alias.get(w.case_class, w.case_class) not in res["violations"])
@@ -2009,11 +1976,6 @@ def _work(arg):
                     m = _minimise(case, prop, phase, actions, v.case_class)
                     if m is not None:
                         ui, actions, v = m
-                    if phase == "api" and v.case_class.startswith("api:") and not any(a[0] == "api" for a in actions):
-                        # the reduced history consists of keys of the front end only
-                        alias[v.case_class] = "ui:" + v.case_class[4:]
-                        v.case_class = alias[v.case_class]
-                        v.contract = CONTRACTS["C17"][0] if ":exception:" in v.case_class else v.contract
                     cls = v.case_class
                 res["counts"][cls] = res["counts"].get(cls, 0) + 1
                 if cls not in res["violations"]:
@@ -2115,8 +2077,7 @@ def run(prop, tier, seed, jobs):
                 % (len(HAND_ORDER), ", ".join(HAND_ORDER), n_small, cfgt["count"], cfgt["n_syms"], cfgt["n_syms"],
                    cfgt["s_hand"], cfgt["s_small"], cfgt["s_random"], cfgt["steps"],
                    "" if prop == "C16" else ", a directory, a file that is not UTF-8",
-                   "C17: every 4th session is an API-level session (public methods with arbitrary nodes)." if prop == "C17" else
-                   "C16: %d sessions, %d keys." % (sessions, actions))),
+                   "%s: %d sessions, %d keys (keys of the front end only; no API-level calls)." % (prop, sessions, actions))),
             "rule": (
                 "hand and small trees are fixed; random tree i is drawn from Random(seed*1000003+i); session s of a tree draws "
                 "its keys from Random(crc32(seed, tree, s, property)) with fixed weights. A session "
